@@ -182,6 +182,18 @@ for name in names:
                     check(topo, eq, key, junction)
                 except Exception as e:
                     wit.append({'key': key, 'problems': [f'{type(e).__name__}: {e}']})
+# a maximum span length below the 50 km that the splitting aims at as its shortest span (metro configurations): fibres between the
+# two, and long ones, are still split into equal spans none of which is longer than the maximum
+for max_len, sp in itertools.product((40, 20), ([45], [130], [49.9, 217])):
+    sites, links = TOPOLOGIES['line2']
+    eq = equipment()
+    eq['Span']['default'].max_length = max_len
+    cases += 1
+    key = f'line2:{sp}:none:power:max_length{max_len}'
+    try:
+        check(mesh(sites, links, spans={l: sp for l in links}, junction='none'), eq, key, 'none')
+    except Exception as e:
+        wit.append({'key': key, 'problems': [f'{type(e).__name__}: {e}']})
 # long fibres described by per-frequency tables (loss, dispersion): the split spans must carry the same tables
 PERFREQ = {'loss': {'loss_coef': {'value': [0.19, 0.2, 0.21, 0.24], 'frequency': [186e12, 191e12, 193.5e12, 197e12]}},
            'dispersion': {'dispersion_per_frequency': {'value': [1.4e-5, 1.6e-5, 1.7e-5, 1.8e-5], 'frequency': [186e12, 191e12, 193.5e12, 197e12]}}}
@@ -444,5 +456,5 @@ for name in (['line2', 'ring3'] if a.tier == 'quick' else ['line2', 'line3', 'ri
         wit.append({'key': key, 'problems': [f'auto-design did not complete: {type(e).__name__}: {e}'[:300]]})
 finish('designed network is a complete line system' + (' with closed power budget' if POWERS else ''), 'bounded',
        'gnpy.tools.worker_utils.designed_network (build_network, add_missing_elements_in_network)',
-       f'topologies {names} x spans {span_sets} km x junction none/fused/edfa x power/gain mode, default eqpt_config.json (+ Span max_length 60 / 100 km on line2, ring3; + 200 km and 40+170 km fibres with per-frequency loss and dispersion tables)',
+       f'topologies {names} x spans {span_sets} km x junction none/fused/edfa x power/gain mode, default eqpt_config.json (+ Span max_length 60 / 100 km on line2, ring3, 40 / 20 km on line2; + 200 km and 40+170 km fibres with per-frequency loss and dispersion tables)',
        cases, wit, t0=t0)
